@@ -84,6 +84,8 @@ def run(ctx):
     ctx.attempt(_mergedup_header, ctx, rep)
     rep.rule('R9.17', 'the rows the groups are cut from are sorted ascending by the key: no sort applied in a constructor of petl.transform.reductions gets a reverse flag (arguments bound to the signature of sort, positional ones included)')
     ctx.attempt(r917, ctx, rep)
+    rep.rule('R9.18', 'the `missing` marker of mergeduplicates / merge is compared by value: a cell equal to the marker is missing whether or not it is the same object (C12 R12.11 imported)')
+    ctx.attempt(r918, ctx, rep)
     rep.rule('R9.16', 'groups are cut from rows sorted with Comparable: its < is a strict order in which None equals None (so equal keys keep their input order) and == agrees with it (C04 R4.1 / R4.2)')
     ctx.attempt(r916, ctx, rep)
     from .common import check_late_binding as _late, check_selector_truth as _seltruth
@@ -724,6 +726,7 @@ def r916(ctx, rep):
         c04.r41(ctx, sub)
         c04.r42(ctx, sub)
         c04.r46(ctx, sub)
+        c04.r44(ctx, sub)
     finally:
         ctx.report = saved
     n = 0
@@ -758,3 +761,24 @@ def r917(ctx, rep):
                              'whenever that value is true the groups come out in descending key order' % norm(r), app.node)
     if n < 4:
         raise AnalysisError('anchor vanished: only %d sort applications in the constructors of petl.transform.reductions' % n)
+
+
+# ------------------------------------------------------------------------ R9.18
+def r918(ctx, rep):
+    from . import c12
+    from ..report import Report
+    sub = Report('C12', ctx.tier, ctx.root)
+    saved = ctx.report
+    ctx.report = sub
+    try:
+        c12.r1211(ctx, sub)
+    finally:
+        ctx.report = saved
+    n = 0
+    for o in sub.obligations:
+        if o.module in ('petl.transform.reductions', 'petl.util.base') or o.status != 'violated':
+            n += 1
+            if o.module in ('petl.transform.reductions', 'petl.util.base', 'petl.transform'):
+                rep.add('R9.18', (o.module, o.qualname), o.construct, o.status, o.message, o.lineno, o.detail)
+    if not n:
+        raise AnalysisError('anchor vanished: identity comparisons with caller-supplied values')
